@@ -296,7 +296,7 @@ def _gen_mmi(case):
     if method == 'integrate':
         n = min(n, 2)
 
-    unitful = cls == 'unitful' or (cls in ('first_off', 'local_bkg', 'remap', 'edges') and rng.random() < 0.3)
+    unitful = cls == 'unitful' or (cls in ('first_off', 'local_bkg', 'remap', 'edges', 'discretize') and rng.random() < 0.3)
     unit = [u.Jy, u.electron / u.s, u.adu, u.mJy][int(rng.integers(0, 4))] if unitful else None
     default_unitful = False
     if unitful and rng.random() < 0.2 and kind not in ('gauss+gauss', 'prf+const'):
